@@ -19,7 +19,7 @@ import elementpath.aliases as ta
 
 from elementpath.namespaces import XML_ID, XML_LANG
 from elementpath.datatypes import AnyURI, Float, DayTimeDuration, YearMonthDuration, \
-    StringProxy, AnyAtomicType, Duration
+    StringProxy, AnyAtomicType, Duration, UntypedAtomic
 from elementpath.helpers import get_double
 from elementpath.xpath_nodes import XPathNode, ElementNode, TextNode, CommentNode, \
     ProcessingInstructionNode, DocumentNode, EtreeElementNode
@@ -414,7 +414,7 @@ def evaluate__sum(self: XPathFunction, context: ta.ContextType = None) -> ta.One
     values: list[Any]
     try:
         values = [get_double(self.string_value(x), xsd_version)
-                  if isinstance(x, XPathNode) else x
+                  if isinstance(x, (XPathNode, UntypedAtomic)) else x
                   for x in self[0].select_flatten(context)]
     except (TypeError, ValueError):
         if self.parser.version == '1.0':
@@ -427,7 +427,9 @@ def evaluate__sum(self: XPathFunction, context: ta.ContextType = None) -> ta.One
         zero = 0 if len(self) == 1 else self.get_argument(context, index=1)
         return [] if zero is None else zero
 
-    if all(isinstance(x, (decimal.Decimal, int)) for x in values):
+    if any(isinstance(x, bool) for x in values):
+        raise self.error('FORG0006', 'cannot apply fn:sum() to xs:boolean values')
+    elif all(isinstance(x, (decimal.Decimal, int)) for x in values):
         result = sum(values) if len(values) > 1 else values[0]
     elif all(isinstance(x, DayTimeDuration) for x in values) or \
             all(isinstance(x, YearMonthDuration) for x in values):
